@@ -30,7 +30,12 @@ SIG = {
 
 # (k, c): powers of two and dyadic offsets; includes an edge below -1, a recording far from 0,
 # a finer and a coarser time unit
-MAPS = [(Fr(1), Fr(-16)), (Fr(1), Fr(1000)), (Fr(1, 4), Fr(0)), (Fr(8), Fr(-3)), (Fr(1), Fr(-5, 2)), (Fr(2), Fr(7, 4))]
+# round 5 of the seeded changes added: a recording a million time units from 0 (np.isclose / np.allclose with their
+# relative tolerance 1e-5 call everything within 10 units "equal" there; cancellation shows), a time unit of 2^-24
+# (absolute tolerances such as 1e-6 swallow whole inter-spike intervals), and a recording that straddles 0
+# (`bound or default` idioms treat a bound of exactly 0 as missing)
+MAPS = [(Fr(1), Fr(-16)), (Fr(1), Fr(1000)), (Fr(1, 4), Fr(0)), (Fr(8), Fr(-3)), (Fr(1), Fr(-5, 2)), (Fr(2), Fr(7, 4)),
+        (Fr(1), Fr(2 ** 20)), (Fr(1, 2 ** 24), Fr(0)), (Fr(1), Fr(-1, 2))]
 
 
 def _time(v, k, c):
@@ -66,14 +71,17 @@ def transform(rid, args, k, c):
     return out
 
 
-def extend(cases, every=6):
-    """cases plus a transformed copy of every `every`-th case (deterministic: position and
-    content decide which map is used)"""
+def extend(cases, every=4):
+    """cases plus a transformed copy of roughly one case in `every` (deterministic: a hash of position and routine
+    decides, so that regular layouts of the case list - e.g. four routines in turn - cannot starve a routine)"""
     out = list(cases)
     for i, (rid, args) in enumerate(cases):
-        if rid not in SIG or i % every != (rid % every):
+        if rid not in SIG:
             continue
-        k, c = MAPS[(i // every + rid) % len(MAPS)]
+        h = ((i + 1) * 2654435761 + rid * 40503) & 0xffffffff
+        if (h >> 9) % every:
+            continue
+        k, c = MAPS[(h >> 17) % len(MAPS)]
         try:
             a2 = transform(rid, args, k, c)
         except Exception:
